@@ -530,3 +530,21 @@ package eio
 //@   guarded_by (transportMu) transport
 //@ type socketStore
 //@   guarded_by (mu) sockets
+
+// C14: the server socket starts ITS watchdog once, with the configured interval and timeout in that order, and the
+// pong mailbox can hold one token (so a pong that arrives before the watchdog waits is not dropped by the
+// non-blocking put).
+//@ func newServerSocket
+//@   opt safety off
+//@   requires debug != nil && callbacks != nil
+//@   modifies *
+//@   ghost started int = 0
+//@   callsite WithContext skip
+//@   callsite (*serverSocket).setCallbacks skip
+//@   callsite Set skip
+//@   callsite (*serverSocket).pingPong go
+//@     requires arg0 == pingInterval && arg1 == pingTimeout [C14.srv.watchdog.configured.values]
+//@     update started = started + 1
+//@   ensures started == 1 [C14.srv.watchdog.started]
+//@   ensures result != nil && cap(result.pongChan) >= 1 [C14.srv.pong.mailbox.buffered]
+//@   ensures result.pingInterval == pingInterval && result.pingTimeout == pingTimeout && result.id == id && result.transport == transport [C14.srv.socket.fields]
